@@ -62,6 +62,15 @@ func rulePtr(w *World, r *Report, pkg *ssa.Package, tag string) {
 				okEsc = true // digits and '-' need no escaping
 			}
 		}
+		if !okEsc && tag == "lib" {
+			// a deferred string-or-integer token is written raw; safe only if
+			// every such value is made of a string strconv.Atoi accepted
+			if cv, ok := strip(arg).(*ssa.Extract); ok {
+				if ta, ok := cv.Tuple.(*ssa.TypeAssert); ok && typeName(ta.AssertedType) == "jsonStringOrInteger" {
+					okEsc, why = stringOrIntegerLemma(w, pkg)
+				}
+			}
+		}
 		r.Check(okEsc, rule, key, w.Pos(c.Pos()), "the written token is the output of jsonpointer.Escape (or a decimal integer)",
 			"an unescaped string ("+why+") is written into the JSON Pointer: keys containing '/' or '~' are mistranslated")
 	})
@@ -195,6 +204,76 @@ func rulePtr(w *World, r *Report, pkg *ssa.Package, tag string) {
 		`the object key "-" is written into the pointer: RFC 6902 reads it as the append position`)
 }
 
+// stringOrIntegerLemma: every conversion to jsonStringOrInteger in the package
+// is dominated by the success edge of strconv.Atoi on the converted string:
+// such a token consists of digits (and a sign) and needs no escaping.
+func stringOrIntegerLemma(w *World, pkg *ssa.Package) (bool, string) {
+	n := 0
+	for _, fn := range w.FuncsOf(pkg) {
+		bad := ""
+		allInstrs(fn, func(in ssa.Instruction) {
+			var X ssa.Value
+			switch x := in.(type) {
+			case *ssa.ChangeType:
+				if typeName(x.Type()) == "jsonStringOrInteger" {
+					X = x.X
+				}
+			case *ssa.Convert:
+				if typeName(x.Type()) == "jsonStringOrInteger" {
+					X = x.X
+				}
+			}
+			if X == nil {
+				return
+			}
+			if _, isK := X.(*ssa.Const); isK {
+				return
+			}
+			n++
+			ok := false
+			for _, b := range fn.Blocks {
+				cond, tE, fE, okb := branchEdges(b)
+				if !okb {
+					continue
+				}
+				bo, isB := cond.(*ssa.BinOp)
+				if !isB || !(isNilConst(bo.Y) || isNilConst(bo.X)) {
+					continue
+				}
+				ev := bo.X
+				if isNilConst(ev) {
+					ev = bo.Y
+				}
+				ex, isEx := ev.(*ssa.Extract)
+				if !isEx {
+					continue
+				}
+				c, isC := ex.Tuple.(*ssa.Call)
+				if !isC || calleeFullName(c) != "strconv.Atoi" || strip(c.Call.Args[0]) != strip(X) {
+					continue
+				}
+				e := tE
+				if bo.Op == token.NEQ {
+					e = fE
+				}
+				if edgeDominatesOrSame(e, in.Block()) {
+					ok = true
+				}
+			}
+			if !ok {
+				bad = w.Pos(in.Pos())
+			}
+		})
+		if bad != "" {
+			return false, "a jsonStringOrInteger is made at " + bad + " from a string that strconv.Atoi did not accept, and such tokens are written into pointers unescaped"
+		}
+	}
+	if n == 0 {
+		return false, "no construction of jsonStringOrInteger found"
+	}
+	return true, ""
+}
+
 func edgeDominatesOrSame(e Edge, b *ssa.BasicBlock) bool {
 	return e.To() == b || edgeDominates(e, b)
 }
@@ -273,7 +352,7 @@ func rulePair(w *World, r *Report, pkg *ssa.Package, tag string) {
 					prev = m
 				}
 			}
-			ok := prev != nil && prev.op == "test" && prev.fields["Path"] == l.fields["Path"] && strip(prev.fields["Value"]) == strip(l.fields["Value"])
+			ok := prev != nil && prev.op == "test" && prev.fields["Path"] == l.fields["Path"] && sameValue(prev.fields["Value"], l.fields["Value"])
 			r.Check(ok, rule, fmt.Sprintf("%s:remove-preceded-by-test#%d", fnName(fn), nRemove), w.Pos(l.alloc.Pos()),
 				"every remove op is emitted right after a test op on the same pointer with the same value",
 				"a remove op is emitted without a preceding test of the same pointer and value: the JSON Patch removes whatever is there, the native diff only what it expects")
@@ -860,4 +939,15 @@ func ruleMergeRead(w *World, r *Report, pkg *ssa.Package) {
 		}
 	})
 	r.Check(conv, rule, fnName(fn)+":null-becomes-void", w.Pos(fn.Pos()), "a null in the merge patch becomes a void addition (delete the member)", "null values of a merge patch are no longer turned into deletions")
+}
+
+// sameValue: identical SSA value, or loads of the same access path.
+func sameValue(a, b ssa.Value) bool {
+	a, b = strip(a), strip(b)
+	if a == b {
+		return true
+	}
+	ra, sa := accessPath(a)
+	rb, sb := accessPath(b)
+	return ra == rb && selString(sa) == selString(sb) && len(sa) > 0
 }
